@@ -106,11 +106,16 @@ def _const_name(e):
     return p.rsplit('::', 1)[-1] if p else None
 
 
-def graph_arm(arm_body):
-    """spiders added (position, colour, incoming edge type, phase), connecting edge, sqrt2 power, other notable calls"""
+def graph_arm(arm_body, facts=None, depth=0):
+    """spiders added (position, colour, incoming edge type, phase), connecting edge, sqrt2 power, other notable calls
+    (private helpers of gate.rs called from the arm contribute their notable calls as well)"""
     d = {'spiders': [], 'edge': None, 'sqrt2': 0, 'other': []}
     for c in hir.calls(arm_body):
         cal = hir.callee(c) or ''
+        if facts is not None and depth < 2 and cal.startswith('gate::Gate::') and cal in facts['fns'] and cal not in (
+                'gate::Gate::add_spider', 'gate::Gate::push_basic_gates', 'gate::Gate::add_ccz_postselected', 'gate::Gate::add_to_graph', 'gate::Gate::new', 'gate::Gate::new_with_phase'):
+            sub = graph_arm(facts['fns'][cal]['hir'], facts, depth + 1)
+            d['other'] += sub['other']
         if cal == 'gate::Gate::add_spider':
             a = c['args']
             d['spiders'].append((_qpos(a[2]), _const_name(a[3]), _const_name(a[4]), _phase_desc(a[5])))
@@ -163,4 +168,4 @@ def graph_table(facts, key='gate::Gate::add_to_graph'):
     if len(ms) != 1:
         return None
     t, _ = rtable.match_table(ms[0], GT, variants)
-    return {v: (graph_descriptor(graph_arm(t[v]['body'])), graph_arm(t[v]['body'])) for v in variants if v in t}, t
+    return {v: (graph_descriptor(graph_arm(t[v]['body'], facts)), graph_arm(t[v]['body'], facts)) for v in variants if v in t}, t
